@@ -248,7 +248,7 @@ func (c17) Run(e *Env) {
 	}
 	var series []srs
 	for i := 0; i < nSeries; i++ {
-		s := srs{name: fmt.Sprintf("c17%c%d.m-x_y", 'a'+rune(i), i), kind: []string{"counter", "gauge", "timer", "timer", "set"}[e.Draw(5)], source: []string{"10.0.0.7", "10.0.0.7", ""}[e.Draw(3)]}
+		s := srs{name: fmt.Sprintf("c17%c%d.m-x_y", 'a'+rune(i), i), kind: []string{"counter", "gauge", "timer", "timer", "set"}[e.Draw(5)], source: []string{"10.0.0.7", "10.0.0.7", "", "2001:db8::7"}[e.Draw(4)]}
 		for j, n := 0, e.Draw(4); j < n; j++ {
 			t := tagPoolC17[e.Draw(len(tagPoolC17))]
 			dup := false
